@@ -1,4 +1,4 @@
-import FxVerif.Proofs.C11Fresh
+import FxVerif.Proofs.C11Pool
 /-!
 # C11 — transferring delegation shares conserves shares, stake and reward entitlements
 
@@ -623,6 +623,100 @@ theorem transfer_never_breaks_bookkeeping (nAcc h0 : Nat) (vals : List (Nat × N
             simp [g12, hlt]
           · exact transferOp_refusal (s := { s with allow := _ }) (by exact hi) h
 
+/-! ### the bank side: staking pools, distribution module account, accounts -/
+
+/-- **pool_invariant** — the SDK staking `ModuleAccountInvariants`, as a theorem: after *any* sequence of the twelve
+operation kinds from genesis the bonded pool holds exactly the tokens of the Bonded validators, and the not-bonded
+pool holds exactly the tokens of the other validators plus the balances of all unbonding-delegation entries.  (A share
+transfer moves no tokens: `transfer_leaves_chain_unchanged`; delegate / undelegate / redelegate move them between the
+delegator, the two pools and the entries according to the validators' status; slashing burns from the pool of the
+validator's status; the validator-set update at the end of a block moves a validator's whole stake.) -/
+theorem pool_invariant (nAcc h0 : Nat) (vals : List (Nat × Nat)) (ops : List Op) :
+    ((init nAcc h0 vals).run cfg ops).bondedPool =
+      sumTo ((init nAcc h0 vals).run cfg ops).nVal (fun w =>
+        if (((init nAcc h0 vals).run cfg ops).vs w).bonded then (((init nAcc h0 vals).run cfg ops).vs w).tokens else 0) ∧
+    ((init nAcc h0 vals).run cfg ops).notBondedPool =
+      sumTo ((init nAcc h0 vals).run cfg ops).nVal (fun w =>
+        if (((init nAcc h0 vals).run cfg ops).vs w).bonded then 0 else (((init nAcc h0 vals).run cfg ops).vs w).tokens) +
+      ubdSum ((init nAcc h0 vals).run cfg ops).ubd := by
+  have hi := run_BInv cfg_good ops _ (init_BInv nAcc h0 vals)
+  exact ⟨hi.bonded, hi.notBonded⟩
+
+/-- **distribution_accounting** — after any history: for every validator the rewards of the open period are part of
+its outstanding rewards, and outstanding + paid (whole coins) + truncation remainders handed to the community pool =
+everything ever allocated to it (nothing is lost, nothing is paid twice, whatever transfers happened in between);
+summed over the validators, the allocations are exactly the coins the distribution module account received, the
+payments are exactly the coins it paid out, and those are exactly the coins the accounts received.  Consequently the
+module account never pays more than it received and its balance is exactly Σ outstanding + the community-pool
+remainders — the SDK distribution `ModuleAccountInvariant` (and `NonNegativeOutstandingInvariant`) as a theorem. -/
+theorem distribution_accounting (nAcc h0 : Nat) (vals : List (Nat × Nat)) (ops : List Op) :
+    (∀ w, (((init nAcc h0 vals).run cfg ops).vs w).cur ≤ (((init nAcc h0 vals).run cfg ops).vs w).outstanding ∧
+      (((init nAcc h0 vals).run cfg ops).vs w).outstanding + (((init nAcc h0 vals).run cfg ops).vs w).paid * ONE +
+        (((init nAcc h0 vals).run cfg ops).vs w).dust = (((init nAcc h0 vals).run cfg ops).vs w).allocated) ∧
+    sumTo ((init nAcc h0 vals).run cfg ops).nVal (fun w => (((init nAcc h0 vals).run cfg ops).vs w).allocated) =
+      ((init nAcc h0 vals).run cfg ops).distrIn * ONE ∧
+    sumTo ((init nAcc h0 vals).run cfg ops).nVal (fun w => (((init nAcc h0 vals).run cfg ops).vs w).paid) =
+      ((init nAcc h0 vals).run cfg ops).distrOut ∧
+    sumTo ((init nAcc h0 vals).run cfg ops).nAcc ((init nAcc h0 vals).run cfg ops).gain =
+      ((init nAcc h0 vals).run cfg ops).distrOut ∧
+    ((init nAcc h0 vals).run cfg ops).distrOut ≤ ((init nAcc h0 vals).run cfg ops).distrIn ∧
+    (((init nAcc h0 vals).run cfg ops).distrIn - ((init nAcc h0 vals).run cfg ops).distrOut) * ONE =
+      sumTo ((init nAcc h0 vals).run cfg ops).nVal (fun w => (((init nAcc h0 vals).run cfg ops).vs w).outstanding) +
+      sumTo ((init nAcc h0 vals).run cfg ops).nVal (fun w => (((init nAcc h0 vals).run cfg ops).vs w).dust) := by
+  have hi := run_BInv cfg_good ops _ (init_BInv nAcc h0 vals)
+  generalize (init nAcc h0 vals).run cfg ops = s at hi ⊢
+  have key : sumTo s.nVal (fun w => (s.vs w).allocated) =
+      sumTo s.nVal (fun w => (s.vs w).outstanding) + sumTo s.nVal (fun w => (s.vs w).paid) * ONE +
+      sumTo s.nVal (fun w => (s.vs w).dust) := by
+    rw [← sumTo_mul_right, ← sumTo_add, ← sumTo_add]
+    exact sumTo_congr (fun w _ => ((hi.acct w).2).symm)
+  have h3 := hi.allocated
+  have h4 := hi.paid
+  rw [h3, h4] at key
+  have hle : s.distrOut ≤ s.distrIn := by
+    have : s.distrOut * ONE ≤ s.distrIn * ONE := by omega
+    exact Nat.le_of_mul_le_mul_right this (by decide)
+  refine ⟨hi.acct, h3, h4, hi.gain, hle, ?_⟩
+  rw [Nat.sub_mul]
+  omega
+
+/-- what a share transfer leaves alone at the level of the chain -/
+def ChainFrame (s s' : State) (f t v : Nat) : Prop :=
+  s'.bondedPool = s.bondedPool ∧ s'.notBondedPool = s.notBondedPool ∧ s'.ubd = s.ubd ∧ s'.redel = s.redel ∧
+  s'.distrIn = s.distrIn ∧ s'.burned = s.burned ∧ s'.height = s.height ∧ s'.spent = s.spent ∧
+  (∀ w, w ≠ v → s'.vs w = s.vs w) ∧
+  (s'.vs v).bonded = (s.vs v).bonded ∧ (s'.vs v).jailed = (s.vs v).jailed ∧ (s'.vs v).tokens = (s.vs v).tokens ∧
+  ∃ rf rt, s'.distrOut = s.distrOut + rf + rt ∧ (s'.vs v).paid = (s.vs v).paid + (rf + rt) ∧
+    s'.gain = setAt (setAt s.gain f (s.gain f + rf)) t (setAt s.gain f (s.gain f + rf) t + rt)
+
+/-- **transfer_leaves_chain_unchanged.**  A successful `transferShares` / `transferFromShares` at validator `v` changes
+neither staking pool, no unbonding-delegation or redelegation record, no other validator's record (in particular no
+delegation, starting info or reward of `from` / `to` at any *other* validator), not the validator's status or tokens, no
+coins bonded by anyone, and burns and allocates nothing; the distribution module account pays out exactly the two
+reward amounts `rf` and `rt`, which are credited to `from` and `to` and to nobody else, and are exactly what is added to
+the validator's `paid` total.  (For `transferFromShares` the only further change is the one allowance of
+`allowance_exact`.) -/
+theorem transfer_leaves_chain_unchanged {s s' : State} {sp f t v x : Nat} :
+    (s.exec cfg (.transfer f t v x) = .ok s' → ChainFrame s s' f t v ∧ s'.allow = s.allow) ∧
+    (s.exec cfg (.transferFrom sp f t v x) = .ok s' → ChainFrame s s' f t v) := by
+  constructor
+  · intro h
+    simp only [State.exec] at h
+    obtain ⟨a1, a2, a3, a4, a5, a6, a7, a8, a9, a10, a11, a12, a13, rf, rt, b1, b2, b3⟩ := transferOp_frame cfg_good h
+    exact ⟨⟨a1, a2, a3, a4, a5, a6, a7, a8, a10, a11, a12, a13, rf, rt, b1, b3, b2⟩, a9⟩
+  · intro h
+    simp only [State.exec] at h
+    split at h
+    · cases h
+    · split at h
+      · cases h
+      · split at h
+        · cases h
+        · split at h
+          · cases h
+          · obtain ⟨a1, a2, a3, a4, a5, a6, a7, a8, a9, a10, a11, a12, a13, rf, rt, b1, b2, b3⟩ := transferOp_frame cfg_good h
+            exact ⟨a1, a2, a3, a4, a5, a6, a7, a8, a10, a11, a12, a13, rf, rt, b1, b3, b2⟩
+
 /-! ### non-vacuity: the hypotheses are satisfiable on concrete, non-trivial histories -/
 
 /-- a history with a new recipient, an existing recipient, a full transfer, a slash and a self-transfer -/
@@ -659,6 +753,20 @@ example : isOk ((demo.vs 0).withdrawMsg (demo.height + 3) 1) = true ∧ isOk ((d
 example : (demo.vs 0).refs ((demo.vs 0).period - 1) = 2 ∧ slashCnt (demo.vs 0) 5 = 1 ∧ (demo.vs 0).refs 5 = 1 ∧
     (List.range (demo.vs 0).period).map (fun p => infoCnt 4 (demo.vs 0) p) = [0, 1, 0, 0, 0, 0, 0, 0, 0, 1, 1] := by
   decide
+-- pool_invariant / distribution_accounting on the demo history: the validator (1000 + 500 tokens, below one unit of
+-- consensus power) left the active set at the first block, so its tokens sit in the not-bonded pool; 90 coins were
+-- allocated, 26 paid out
+example : demo.bondedPool = 0 ∧ demo.notBondedPool = 1400 ∧ demo.burned = 100 ∧ demo.distrIn = 90 ∧ demo.distrOut = 26 ∧
+    (demo.vs 0).bonded = false := by decide
+-- both pools in use, an unbonding entry, a redelegation from a Bonded to a not-Bonded validator
+example :
+    let s := (init 4 1 [(200000000000000000000, 0), (5000, 0)]).run cfg
+      [.delegate 2 0 700, .delegate 3 1 300, .block, .undelegate 2 0 100, .redelegate 2 0 1 50, .slash 0 1 100000000000000000]
+    s.bondedPool = 190000000000000000550 ∧ s.notBondedPool = 5450 ∧ ubdSum s.ubd = 100 ∧ (s.vs 0).bonded = true ∧
+    (s.vs 1).bonded = false ∧ s.burned = 10000000000000000000 := by decide
+-- a transfer that pays both parties (hypothesis of transfer_leaves_chain_unchanged)
+example : isOk (((init 4 1 [(1000, 0)]).run cfg [.delegate 1 0 500, .delegate 2 0 300, .alloc 0 77, .block]).exec cfg
+    (.transfer 1 2 0 200)) = true := by decide
 -- every status: a validator that was jailed and left the active set (Unbonding) still pays the rewards accrued while it
 -- was bonded when shares are transferred (all the transfer theorems above quantify over histories with jail / unjail
 -- operations and over the validator-set update at the end of every block)
